@@ -58,7 +58,7 @@ Definition run_action (a : action) (sd sp : state) : string * state * state :=
   | ALoad p =>
     let od := match blookup p (s_paths sd) with
               | None => DdsErr "NONE"
-              | Some k => match blookup k (s_blobs sd) with Some v => Ret v | None => Ret (RVal VNone) end
+              | Some k => match blookup k (s_blobs sd) with Some v => Ret v | None => DdsErr "NONE" end   (* fix F40: no value to return *)
               end in
     let op := match blookup p (s_kept sp) with Some v => Ret v | None => DdsErr "NONE" end in
     (render_outcome od ++ "#####" ++ render_outcome op, sd, sp)
